@@ -225,7 +225,11 @@ def impl_run(case):
     op, args = case
     it = _INTERP
     it.stack.clear()
-    res = it.execute(snippet(op, args))
+    try:
+        res = it.execute(snippet(op, args))
+    except Exception as e:      # noqa: BLE001 — an exception escaping from Interpreter.execute itself: the snippet did not run to its result
+        _INTERP = None          # (the session object may be left half-way)
+        return f'fail other:escaped-{type(_root(e)).__name__}'
     if res.error is not None:
         root = _root(res.error)
         name = type(root).__name__
